@@ -39,8 +39,15 @@ OPS = {
     "breeze_swing": (2, {"remote": "special", "state": "on", "mode": "cool", "temp": 23, "fan": "low", "swing": "on"}),
     "breeze_update": (2, {"remote": "plain", "state": "on", "mode": "heat", "temp": 25, "fan": "high", "swing": "off", "update": True}),
 }
-OPS1 = [k for k, v in OPS.items() if v[0] == 1]
-OPS2 = [k for k, v in OPS.items() if v[0] == 2]
+# further shapes of thermostat control (used by the fault and lifecycle checks, not part of the 16 kinds)
+EXTRA_OPS = {
+    "breeze_swing_only": (2, {"remote": "special", "state": None, "mode": None, "temp": 0, "fan": None, "swing": "on"}),
+    "breeze_plain_swing_only": (2, {"remote": "plain", "state": None, "mode": None, "temp": 0, "fan": None, "swing": "off"}),
+    "breeze_temp_only": (2, {"remote": "special", "state": None, "mode": None, "temp": 27, "fan": None, "swing": None}),
+}
+OPS.update(EXTRA_OPS)
+OPS1 = [k for k, v in OPS.items() if v[0] == 1 and k not in EXTRA_OPS]
+OPS2 = [k for k, v in OPS.items() if v[0] == 2 and k not in EXTRA_OPS]
 
 _remotes = {}
 
@@ -132,6 +139,10 @@ def expected_shape(op, args=None):
         return ["login2", "get_state2", "breeze_command", "breeze_command"]
     if op == "breeze_update":
         return ["login2", "get_state2", "breeze_update"]
+    if op == "breeze_swing_only":
+        return ["login2", "breeze_command"]
+    if op in ("breeze_plain_swing_only", "breeze_temp_only"):
+        return ["login2", "get_state2", "breeze_command"]
     raise KeyError(op)
 
 
